@@ -95,6 +95,13 @@ Theorem C12_invalid_no_change : forall t a,
 Proof. exact table_clean. Qed.
 Print Assumptions C12_invalid_no_change.
 
+(* every handle / index / name / enumeration parameter of every entry point is validated on the spine of its body (a check
+   of a matching class that every call passes before anything can return, directly or through a delegate to which the
+   parameter is passed unchanged) -- except the (entry point, position) pairs of Validate.known_unvalidated *)
+Theorem C12_parameters_validated : kinds_claimed_b TB = true.
+Proof. vm_compute. reflexivity. Qed.
+Print Assumptions C12_parameters_validated.
+
 (* ---- (c) failing checks return failures ---- *)
 Theorem C12_checks_guarded : guarded_b TB = true.
 Proof. vm_compute. reflexivity. Qed.
@@ -151,11 +158,11 @@ Transparent A TB.
    changed file -- replayed on the real library by the check (finding late:cgi_get_zcoorGC). *)
 Local Open Scope positive_scope.
 Definition witness_table : list vrow :=
-  [ mkVRow 2 "cgi_new_node" Internal 8%nat (QAct (ACall ANone 9 [] [] true) (QRet ROk));
-    mkVRow 3 "cgi_get_zcoorGC" Internal 3%nat
+  [ mkVRow 2 "cgi_new_node" Internal [] (QAct (ACall ANone 9 [] [] true) (QRet ROk));
+    mkVRow 3 "cgi_get_zcoorGC" Internal []
       (QIf (QAct (AMirror 1) (QIf (QIfFail (ACall ANone 2 [] [] true) (QRet RErr) QEnd QEnd) QEnd (QRet ROk)))
            QEnd (QAct AErr (QRet RErr)));
-    mkVRow 4 "cg_coord_info" (Api DocRead) 6%nat
+    mkVRow 4 "cg_coord_info" (Api DocRead) [PH; PI; PI; PI; PO; PO]
       (QIfFail (ACheck CIndex 3 [2; 3] [100; 3; 4] true) (QRet RErr) QEnd
       (QIfFail (ACheck CRange 1 [4] [] true) (QAct AErr (QRet RErr)) QEnd (QRet ROk))) ].
 Theorem C12_validate_before_effect_refuted :
@@ -168,10 +175,10 @@ Print Assumptions C12_validate_before_effect_refuted.
 (* non-vacuity: on a small table the machine does return at a failing validation with nothing changed, does change the file
    after the validations have passed, and the analysis puts the clean writer in V and the late one outside *)
 Example C12_machine_example :
-  let good := mkVRow 2 "good_write" (Api DocWrite) 2%nat
+  let good := mkVRow 2 "good_write" (Api DocWrite) [PO; PN]
         (QIfFail (ACheck CName 1 [2] [] true) (QAct AErr (QRet RErr)) QEnd
         (QAct (AMirror 1) (QIfFail (ACall ANone 9 [] [] false) (QAct AErr (QRet RErr)) QEnd (QRet ROk)))) in
-  let late := mkVRow 3 "late_write" (Api DocWrite) 2%nat
+  let late := mkVRow 3 "late_write" (Api DocWrite) [PO; PN]
         (QAct (AMirror 1) (QIfFail (ACheck CName 1 [2] [] true) (QAct AErr (QRet RErr)) QEnd (QRet ROk))) in
   let t := [good; late] in
   let a := vanalyse t [(9, "ADF_Create"%string)] [] in
